@@ -117,6 +117,26 @@ package bchutil
 //@   ensures forall k :: 0 <= k && k < len(b.msgBlock.Transactions) ==> b.msgBlock.Transactions[k] != nil
 //@   modifies b.transactions, *b.transactions
 
+//@ func bchutil.(*Block).TxHash
+//@   requires b.msgBlock != nil
+//@   requires len(b.transactions) == 0 || len(b.transactions) == len(b.msgBlock.Transactions)
+//@   requires forall k :: 0 <= k && k < len(b.transactions) ==> (b.transactions[k] != nil ==> b.transactions[k].msgTx == b.msgBlock.Transactions[k] && b.transactions[k].txIndex == k)
+//@   requires b.txnsGenerated ==> len(b.transactions) == len(b.msgBlock.Transactions) && forall k :: 0 <= k && k < len(b.transactions) ==> b.transactions[k] != nil
+//@   requires b.blockHash != nil ==> forall k :: 0 <= k && k < 32 ==> b.blockHash[k] == wire.bh(b.msgBlock.ref, b.msgBlock.off, k)
+//@   requires forall k :: 0 <= k && k < len(b.msgBlock.Transactions) ==> b.msgBlock.Transactions[k] != nil
+//@   ensures (txNum < 0 || txNum >= len(b.msgBlock.Transactions)) ==> err != nil && result0 == nil
+//@   ensures (0 <= txNum && txNum < len(b.msgBlock.Transactions)) ==> err == nil && result0 != nil
+//@   ensures $calls_Tx == 1 && ($ret1_Tx#1 == nil ==> $calls_Hash == 1 && result0 == $ret_Hash#1)
+//@   ensures b.msgBlock != nil
+//@   ensures len(b.transactions) == 0 || len(b.transactions) == len(b.msgBlock.Transactions)
+//@   ensures forall k :: 0 <= k && k < len(b.transactions) ==> (b.transactions[k] != nil ==> b.transactions[k].msgTx == b.msgBlock.Transactions[k] && b.transactions[k].txIndex == k)
+//@   ensures b.txnsGenerated ==> len(b.transactions) == len(b.msgBlock.Transactions) && forall k :: 0 <= k && k < len(b.transactions) ==> b.transactions[k] != nil
+//@   ensures b.blockHash != nil ==> forall k :: 0 <= k && k < 32 ==> b.blockHash[k] == wire.bh(b.msgBlock.ref, b.msgBlock.off, k)
+//@   ensures forall k :: 0 <= k && k < len(b.msgBlock.Transactions) ==> b.msgBlock.Transactions[k] != nil
+//@   modifies b.transactions, *b.transactions, any bchutil.Tx.txHash
+//@   assert after Tx#1: $arg0 == b && $arg1 == txNum
+//@   assert after Hash#1: $arg0 == $ret0_Tx#1
+
 //@ func bchutil.(*Block).Transactions
 //@   requires b.msgBlock != nil
 //@   requires len(b.transactions) == 0 || len(b.transactions) == len(b.msgBlock.Transactions)
